@@ -17,6 +17,7 @@ def fmtOut : Out → String
   | .errRange => "err"
   | .val x => s!"val:{x}"
   | .bool b => if b then "bool:1" else "bool:0"
+  | .skip => "skip"
 
 def parseOp (toks : List String) : Option Op :=
   match toks with
@@ -32,6 +33,28 @@ def parseOp (toks : List String) : Option Op :=
   | ["badd", d, s] => do pure (.baseAdd (← d.toNat?) (← s.toNat?))
   | ["recycle", r] => do pure (.recycle (← r.toNat?))
   | ["eq", a, b] => do pure (.eq (← a.toNat?) (← b.toNat?))
+  | ["sub", d, s] => do pure (.arith .sub (← d.toNat?) (← s.toNat?))
+  | ["mul", d, s] => do pure (.arith .mul (← d.toNat?) (← s.toNat?))
+  | ["div", d, s] => do pure (.arith .div (← d.toNat?) (← s.toNat?))
+  | ["bsub", d, s] => do pure (.baseArith .sub (← d.toNat?) (← s.toNat?))
+  | ["bmul", d, s] => do pure (.baseArith .mul (← d.toNat?) (← s.toNat?))
+  | ["bdiv", d, s] => do pure (.baseArith .div (← d.toNat?) (← s.toNat?))
+  | ["sadd", r, x] => do pure (.scalar .add (← r.toNat?) (← x.toInt?))
+  | ["ssub", r, x] => do pure (.scalar .sub (← r.toNat?) (← x.toInt?))
+  | ["smul", r, x] => do pure (.scalar .mul (← r.toNat?) (← x.toInt?))
+  | ["sdiv", r, x] => do pure (.scalar .div (← r.toNat?) (← x.toInt?))
+  | ["plus", d, x, y] => do pure (.bin .add (← d.toNat?) (← x.toNat?) (← y.toNat?))
+  | ["minus", d, x, y] => do pure (.bin .sub (← d.toNat?) (← x.toNat?) (← y.toNat?))
+  | ["times", d, x, y] => do pure (.bin .mul (← d.toNat?) (← x.toNat?) (← y.toNat?))
+  | ["over", d, x, y] => do pure (.bin .div (← d.toNat?) (← x.toNat?) (← y.toNat?))
+  | ["pluss", d, x, c] => do pure (.binScalar .add (← d.toNat?) (← x.toNat?) (← c.toInt?))
+  | ["minuss", d, x, c] => do pure (.binScalar .sub (← d.toNat?) (← x.toNat?) (← c.toInt?))
+  | ["timess", d, x, c] => do pure (.binScalar .mul (← d.toNat?) (← x.toNat?) (← c.toInt?))
+  | ["overs", d, x, c] => do pure (.binScalar .div (← d.toNat?) (← x.toNat?) (← c.toInt?))
+  | ["xapyb", d, x, a, y, b] => do pure (.xapyb (← d.toNat?) (← x.toNat?) (← a.toInt?) (← y.toNat?) (← b.toInt?))
+  | ["xapybv", d, x, a, y, b] => do pure (.xapybVec (← d.toNat?) (← x.toNat?) (← a.toNat?) (← y.toNat?) (← b.toNat?))
+  | ["sapyb", d, a, y, b] => do pure (.sapyb (← d.toNat?) (← a.toInt?) (← y.toNat?) (← b.toInt?))
+  | ["sapybv", d, a, y, b] => do pure (.sapybVec (← d.toNat?) (← a.toNat?) (← y.toNat?) (← b.toNat?))
   | _ => none
 
 def initRegs : Regs := [Vec.empty, Vec.empty, Vec.empty]
